@@ -126,10 +126,11 @@ func (d *cycDev) rewrite(object, relation string, us *openfgav1.Userset) (bool, 
 		return allTrue, !allTrue && anyCyc
 	case *openfgav1.Userset_Difference:
 		bv, bc := d.rewrite(object, relation, u.Difference.GetBase())
-		if !bv {
-			return false, bc
-		}
 		sv, sc := d.rewrite(object, relation, u.Difference.GetSubtract())
+		if !bv {
+			// both operands run concurrently: a false-but-flagged subtract may be the one that answers
+			return false, bc || (!sv && sc)
+		}
 		if sv {
 			return false, false
 		}
